@@ -159,9 +159,9 @@ def jobs_for(prop, tier, seed):
         J += conc(prop, seed, ["add-stream-shared"], n - n // 2 - 2, s, label="shared", base=40)
         J += shard_jobs(prop, seed, ["fut"], 2, s, "fut", base=60)
     elif prop == "C11":
-        J += conc(prop, seed, ["remove-stream", "remove-stream", "no-receiver"], n - 6, s)
+        J += conc(prop, seed, ["remove-stream", "remove-stream", "no-receiver"], n - 8, s)
         J += shard_jobs(prop, seed, ["seq", "--cfgs", "broadcast"], 2, s, "seq", base=100)
-        J += shard_jobs(prop, seed, ["fut"], 2, s, "fut", base=60)
+        J += shard_jobs(prop, seed, ["fut"], 4, s, "fut", base=60)
         J += shard_jobs(prop, seed, ["tight", "--mode", "last-receiver"], 1, s, "last-receiver", base=90)
         J += shard_jobs(prop, seed, ["tight", "--mode", "handle-count"], 1, s, "handle-count", base=92)
     elif prop == "C12":
